@@ -7,7 +7,19 @@ VERIF = os.path.dirname(os.path.dirname(os.path.abspath(__file__)))
 PY = '/venv/bin/python'
 
 
+_cache = {}
+
+
 def run_script(script, scenario, repo, timeout=60, env_extra=None):
+    key = (script, json.dumps(scenario, sort_keys=True, default=str), repo)
+    if key in _cache:
+        return dict(_cache[key], cached=True)
+    r = _run_script(script, scenario, repo, timeout, env_extra)
+    _cache[key] = r
+    return r
+
+
+def _run_script(script, scenario, repo, timeout=60, env_extra=None):
     env = dict(os.environ)
     env['PYTHONPATH'] = repo + os.pathsep + os.path.join(VERIF, 'replay')
     env.pop('PYWORKERS_VERIF', None)
